@@ -284,6 +284,7 @@ class MapPart:
     alts: tuple          # ((guard z3, (items...)), ...)
     lid: int
     once: bool = False   # search loop: only the first element whose guard holds contributes
+    total: bool = False  # exactly one item per element of seq (comprehension without filter and without raise)
 
     def __repr__(self):
         return f"Map({self.seq},{self.elem},{self.alts})"
